@@ -461,7 +461,15 @@ Fixpoint retain_from (fuel : list (option rmeta)) (s : st) (keep : list N) (i : 
       else let* s1 := remove_idx s i in retain_from t s1 keep (i + 1)
   | None :: t => retain_from t s keep (i + 1)
   end.
+(* a region that is to be removed (its id is not in `keep`) and still has another handle *)
+Definition retain_blocked (s : st) (keep : list N) : bool :=
+  existsb (fun o => match o with
+                    | Some m => negb (existsb (fun x => x =? r_id m) keep) && is_held s (r_id m)
+                    | None => false end) (slots s).
+
 Definition retain (s : st) (keep : list N) : ares (st * out) :=
+  (* all candidates are checked before anything is removed (fix 881ef86) *)
+  if retain_blocked s keep then AErr s RegionStillReferenced else
   let* s1 := retain_from (slots s) s keep 0 in
   AOk (set_held s1 (filter (fun x => existsb (fun y => y =? x) keep) (held s1)), OUnit).
 
